@@ -25,3 +25,7 @@ check('C03', 'exploration',
 check('C15', 'exploration',
       'REORG_LIMIT x indexing mode (initial sync, caught up, before restart, restart mid-sync, daemon jumping) x probe depth limit-1/limit/limit+1 natural or forced; monitors on undo keys after every database open and at every catch-up, plus the C03 comparison after the probe reorg. limit+1 outcomes are recorded, not judged.',
       _IDX_NOTE, 'invariant monitor on undo keys + reference-model oracle over generated restart/reorg histories', 'DESIGN.md section 4 C15')
+check('C18', 'fault_enumeration',
+      'Every fault word up to length 3 (quick) / 4 (thorough; longer sampled, random up to 40, permanently-down URLs) over the fault alphabet is injected into the real Daemon object through a simulated HTTP session in virtual time, for every call kind, 1..3 URLs and two retry settings, with the world changing at every attempt; an offline checker over the attempt log decides result genuineness, positional alignment, error raising, fail-over discipline and block-file equality. "Eventually" is restated as: the call returns at the first fault-free attempt and never stays more than doublings+1 attempts on one URL.',
+      'faults are raised by the simulated session using aiohttp\'s own exception classes; real sockets are not exercised; unbounded fault sequences out of reach',
+      'fault-sequence enumeration with an offline attempt-log checker on the real Daemon class', 'DESIGN.md section 4 C18')
